@@ -686,10 +686,11 @@ class QueryDeviceTypeResponse(command.Response):
               255: "multiple"}
 
     def __str__(self):
-        if self.value and self.value.as_integer in self._types:
-            return self._types[self.value.as_integer]
+        raw = self.raw_value
+        if raw is not None and not raw.error and raw.as_integer in self._types:
+            return self._types[raw.as_integer]
 
-        return "{}".format(self.value)
+        return super().__str__()
 
 
 class QueryDeviceType(_StandardCommand):
